@@ -2,6 +2,7 @@
 //! and writes ndjson traces that TLC validates against the TLA+ specification.
 
 mod drivers;
+mod likes;
 mod mutate;
 mod recin;
 mod reg;
@@ -75,7 +76,8 @@ macro_rules! each_seq_type {
 			VecDeque<i64>, VecDeque<u128>, VecDeque<i128>, VecDeque<f32>, VecDeque<f64>,
 			VecDeque<TwU16>, VecDeque<TwU64>, VecDeque<String>, VecDeque<bool>,
 			Vec<bool>, Vec<()>, Vec<Option<u16>>, Vec<String>, Vec<Compact<u32>>, Vec<OptionBool>, Vec<[u8; 3]>,
-			Vec<NonZeroU16>, Vec<Duration>, VecDeque<()>, Cow<'static, Vec<u16>>
+			Vec<NonZeroU16>, Vec<Duration>, VecDeque<()>, Cow<'static, Vec<u16>>, Vec<[u8; 0]>, Vec<PhantomData<u32>>,
+			(Vec<()>, u32), (LinkedList<()>, (), ())
 		);
 	};
 }
@@ -86,8 +88,8 @@ macro_rules! each_feature_type {
 		each_codec_type!(@list $f, $args;
 			SNamed, STuple, SUnit, SCompact, SSkip, SSingleCompact, SSingle, SEncodedAs, SGeneric<u16>, SGeneric<String>,
 			STransp, Box<STransp>, [STransp; 3], Box<STranspBig>, Vec<STransp>, CA, Compact<CA>, SHasCompact,
-			EPlain, EDisc, EIdx, ESkip, EBoth, STranspC, Box<STranspC>, [STranspC; 3], Rc<STranspC>, (u8, Box<STransp>), Vec<EPlain>, Option<EIdx>, [ESkip; 2], Box<EPlain>,
-			RV, RB, Tree, RM, RL, Vec<SNamed>, Vec<SUnit>, BTreeMap<u8, EPlain>, Vec<SCompact>
+			EPlain, EDisc, EIdx, ESkip, EBoth, STranspZ, Box<STranspZ>, [STranspZ; 3], Rc<STranspZ>, (Box<STranspZ>, u16), STranspC, Box<STranspC>, [STranspC; 3], Rc<STranspC>, (u8, Box<STransp>), Vec<EPlain>, Option<EIdx>, [ESkip; 2], Box<EPlain>,
+			SMelGeneric<u32>, SMelCA, EMelCompact, RV, RB, Tree, RM, RL, Vec<SNamed>, Vec<SUnit>, BTreeMap<u8, EPlain>, Vec<SCompact>
 		);
 		#[cfg(feature = "bit-vec")]
 		each_codec_type!(@list $f, $args;
@@ -97,7 +99,8 @@ macro_rules! each_feature_type {
 			Vec<BitVec<u8, Msb0>>, Option<BitVec<u16, Lsb0>>
 		);
 		#[cfg(feature = "bytes")]
-		each_codec_type!(@list $f, $args; bytes::Bytes, Vec<bytes::Bytes>, (u8, bytes::Bytes), Option<bytes::Bytes>);
+		each_codec_type!(@list $f, $args; bytes::Bytes, Vec<bytes::Bytes>, (u8, bytes::Bytes), Option<bytes::Bytes>,
+			(bytes::Bytes, u32), (u8, bytes::Bytes, bytes::Bytes, u8), (bytes::Bytes, Vec<u16>, String));
 		#[cfg(feature = "generic-array")]
 		each_codec_type!(@list $f, $args;
 			generic_array::GenericArray<u8, generic_array::typenum::U3>,
@@ -105,6 +108,69 @@ macro_rules! each_feature_type {
 			generic_array::GenericArray<String, generic_array::typenum::U2>
 		);
 	};
+}
+
+/// Types declaring MaxEncodedLen.
+#[cfg(feature = "max-encoded-len")]
+macro_rules! each_mel_type {
+	($f:ident, $args:tt) => {{
+		each_mel_type!(@list $f, $args;
+			u8, u16, u32, u64, u128, i8, i16, i32, i64, i128, bool,
+			NonZeroU8, NonZeroU16, NonZeroU32, NonZeroU64, NonZeroU128, NonZeroI8, NonZeroI16, NonZeroI32, NonZeroI64, NonZeroI128,
+			Compact<()>, Compact<u8>, Compact<u16>, Compact<u32>, Compact<u64>, Compact<u128>,
+			(u8,), (u8, u16), (Compact<u64>, i8, Option<u8>), (Compact<u128>, Compact<u32>, bool, [u16; 3]),
+			(u8, u8, u8, u8, u8, u8, u8, u8, u8, u8, u8, u8, u8, u8, u8, u8, u8, u16),
+			[u8; 0], [u8; 32], [u16; 3], [Option<u8>; 2], [Compact<u32>; 3], [bool; 3],
+			Box<u32>, Arc<i16>, Box<Compact<u64>>, Box<[u8; 1000]>,
+			Option<u8>, Option<bool>, Option<Option<bool>>, Option<Compact<u128>>,
+			Result<u8, bool>, Result<(), u32>, Result<Compact<u32>, Option<u16>>, Result<u128, u8>,
+			PhantomData<u32>, Duration, Range<u32>, RangeInclusive<i16>, Range<Compact<u64>>
+		);
+		#[cfg(feature = "derive")]
+		each_mel_type!(@list $f, $args;
+			STuple, SUnit, SCompact, SSkip, SSingleCompact, SEncodedAs, STransp, CA, EDisc, EIdx, ESkip, EBoth,
+			[SCompact; 2], Option<SEncodedAs>, (SSingleCompact, u8), SMelGeneric<u32>, SMelGeneric<u64>, SMelCA, EMelCompact
+		);
+	}};
+	(@list $f:ident, $args:tt; $($t:ty),* $(,)?) => {
+		$( {
+			MT.with(|m| m.set((&&ProbeC::<$t>(PhantomData)).is_cel()));
+			$f::<$t> $args;
+		} )*
+	};
+}
+#[cfg(feature = "max-encoded-len")]
+struct ProbeC<T>(PhantomData<T>);
+#[cfg(feature = "max-encoded-len")]
+trait IsCel { fn is_cel(&self) -> bool; }
+#[cfg(feature = "max-encoded-len")]
+impl<T: parity_scale_codec::ConstEncodedLen> IsCel for &ProbeC<T> { fn is_cel(&self) -> bool { true } }
+#[cfg(feature = "max-encoded-len")]
+trait NotCel { fn is_cel(&self) -> bool; }
+#[cfg(feature = "max-encoded-len")]
+impl<T> NotCel for ProbeC<T> { fn is_cel(&self) -> bool { false } }
+#[cfg(feature = "max-encoded-len")]
+fn mel_one<T: reg::Reg + parity_scale_codec::Encode + parity_scale_codec::MaxEncodedLen>(ctx: &mut Ctx) {
+	drive_mel::<T>(ctx, MT.with(|m| m.get()))
+}
+fn fixed_one<T: reg::Reg + parity_scale_codec::Encode + parity_scale_codec::Decode>(ctx: &mut Ctx) {
+	drive_fixed::<T>(ctx)
+}
+
+fn ident_val(a: &serde_json::Value) -> serde_json::Value { a.clone() }
+fn first_val(a: &serde_json::Value) -> serde_json::Value { a[0].clone() }
+fn len_self<T: reg::Reg + parity_scale_codec::Encode + parity_scale_codec::DecodeLength>(ctx: &mut Ctx) { drive_len::<T>(ctx, ident_val) }
+fn len_first<T: reg::Reg + parity_scale_codec::Encode + parity_scale_codec::DecodeLength>(ctx: &mut Ctx) { drive_len::<T>(ctx, first_val) }
+macro_rules! each_len_type {
+	($ctx:expr) => {{
+		each_codec_type!(@list len_self, ($ctx);
+			Vec<u8>, Vec<u32>, Vec<()>, Vec<String>, Vec<Option<u16>>, VecDeque<u16>, VecDeque<()>, VecDeque<String>,
+			BTreeSet<u32>, BTreeSet<String>, BTreeMap<u8, u16>, BTreeMap<u32, String>, BinaryHeap<u32>, BinaryHeap<u8>,
+			LinkedList<u8>, LinkedList<()>, LinkedList<String>, Vec<[u8; 0]>, Vec<PhantomData<u32>>, Vec<bool>);
+		each_codec_type!(@list len_first, ($ctx);
+			(Vec<u8>,), (Vec<()>, u32), (Vec<u16>, String, bool), (BTreeMap<u8, u16>, u8), (LinkedList<()>, (), ()), (VecDeque<u32>, Vec<u8>),
+			(BTreeSet<u32>, u8, u8, u8), (BinaryHeap<u8>, u16));
+	}};
 }
 
 thread_local! { static MT: std::cell::Cell<bool> = std::cell::Cell::new(false); }
@@ -116,6 +182,9 @@ impl<T> NotMt for Probe<T> { fn is_mt(&self) -> bool { false } }
 
 fn enc_one<T: reg::Reg + parity_scale_codec::Encode>(ctx: &mut Ctx) {
 	drive_enc::<T>(ctx)
+}
+fn entries_one<T: reg::Reg + parity_scale_codec::Encode>(ctx: &mut Ctx) {
+	drive_entries::<T>(ctx)
 }
 fn rt_one<T: reg::Reg + parity_scale_codec::Encode + parity_scale_codec::Decode>(ctx: &mut Ctx) {
 	drive_rt::<T>(ctx, None)
@@ -168,13 +237,52 @@ fn main() {
 		"gen" => match prop.as_str() {
 			"C01" => { each_codec_type!(enc_one, (&mut ctx)); },
 			"C02" => {
-				each_codec_type!(@list rt_one, (&mut ctx);
-					u8, u64, i128, f64, bool, (), Duration, Compact<u64>, Option<u64>, String);
+				each_codec_type!(rt_one, (&mut ctx));
 				each_seq_type!(rt_seq, (&mut ctx));
-				each_feature_type!(rt_one, (&mut ctx));
+			},
+			"C07" => {
+				each_codec_type!(entries_one, (&mut ctx));
+				each_seq_type!(rt_seq, (&mut ctx));
+				each_codec_type!(@list rt_one, (&mut ctx); [u8; 32], [u8; 33], [u16; 3], [u32; 2], [i64; 5], [u128; 2], [f32; 3], [i128; 1], [TwU16; 3]);
+			},
+			"C16" => { likes::drive(&mut ctx); },
+			"C15" => {
+				use drivers::append::*;
+				drive_items::<Vec<u8>, u8>(&mut ctx, "Vec<u8>");
+				drive_items::<Vec<u32>, u32>(&mut ctx, "Vec<u32>");
+				drive_items::<Vec<String>, String>(&mut ctx, "Vec<String>");
+				drive_items::<Vec<Vec<u8>>, Vec<u8>>(&mut ctx, "Vec<Vec<u8>>");
+				drive_items::<VecDeque<u16>, u16>(&mut ctx, "VecDeque<u16>");
+				drive_items::<VecDeque<Option<u8>>, Option<u8>>(&mut ctx, "VecDeque<Option<u8>>");
+				#[cfg(feature = "derive")]
+				drive_items::<Vec<SCompact>, SCompact>(&mut ctx, "Vec<SCompact>");
+				#[cfg(feature = "derive")]
+				drive_items::<Vec<EPlain>, EPlain>(&mut ctx, "Vec<EPlain>");
+				drive_units::<Vec<()>>(&mut ctx, "Vec<()>");
+				drive_units::<VecDeque<()>>(&mut ctx, "VecDeque<()>");
+			},
+			"C06" => {
+				use drivers::hist::*;
+				deque::<u8>(&mut ctx); deque::<u16>(&mut ctx); deque::<u32>(&mut ctx); deque::<i64>(&mut ctx); deque::<u128>(&mut ctx);
+				deque::<String>(&mut ctx); deque::<TwU16>(&mut ctx); deque::<bool>(&mut ctx); deque::<Option<u16>>(&mut ctx);
+				vector::<u16>(&mut ctx); vector::<String>(&mut ctx); list::<u16>(&mut ctx); list::<String>(&mut ctx);
+				map::<u8, u16>(&mut ctx); map::<u32, String>(&mut ctx); map::<String, Vec<u8>>(&mut ctx); map::<i8, ()>(&mut ctx);
+				set::<u32>(&mut ctx); set::<String>(&mut ctx); set::<i16>(&mut ctx); heap::<u8>(&mut ctx); heap::<i16>(&mut ctx);
+				string(&mut ctx);
+				#[cfg(feature = "bit-vec")]
+				{
+					bits::<u8, Lsb0>(&mut ctx); bits::<u8, Msb0>(&mut ctx); bits::<u16, Lsb0>(&mut ctx); bits::<u16, Msb0>(&mut ctx);
+					bits::<u32, Lsb0>(&mut ctx); bits::<u32, Msb0>(&mut ctx); bits::<u64, Lsb0>(&mut ctx); bits::<u64, Msb0>(&mut ctx);
+				}
+			},
+			"C13" => {
+				#[cfg(feature = "max-encoded-len")]
+				each_mel_type!(mel_one, (&mut ctx));
+				each_codec_type!(fixed_one, (&mut ctx));
 			},
 			"C04" => { drivers::compact::drive(&mut ctx, &part); },
-			"C03" | "C08" | "C11" | "C12" | "C14" | "C18" | "C19" => { each_codec_type!(dec_one, (&mut ctx)); },
+			"C18" => { each_codec_type!(dec_one, (&mut ctx)); each_len_type!(&mut ctx); },
+			"C03" | "C08" | "C11" | "C12" | "C14" | "C19" => { each_codec_type!(dec_one, (&mut ctx)); },
 			_ => { eprintln!("unknown prop {}", prop); std::process::exit(2) },
 		},
 		_ => { eprintln!("usage: vharness gen --prop ID --tier T --seed N --out FILE"); std::process::exit(2) },
